@@ -356,7 +356,27 @@ func c16Verifier(r *Run, t *tape.Tape) {
 	good := refcose.ECDSASigBytes(curve, rr, ss)
 	var offered []byte
 	variant := ""
-	switch t.Choose(15, "c16.variant") {
+	switch t.Choose(16, "c16.variant") {
+	case 15:
+		// zero octets whose number is a multiple of 2^8 (or 2^16), put where a
+		// peer or a record format might put padding: in front of r, between
+		// the halves, behind s, or half of them in front of each half.  The
+		// total length is then congruent to 2n modulo 2^8 / 2^16 - a length
+		// kept in a narrow integer sees the right number - and r and s are
+		// still found by anything that reads the halves as integers.
+		pad := []int{256, 512, 768, 1024, 65536}[t.Choose(5, "c16.farpad.n")]
+		z := make([]byte, pad)
+		switch t.Choose(4, "c16.farpad.where") {
+		case 0:
+			offered = append(append(append([]byte{}, good[:size]...), z...), good[size:]...)
+		case 1:
+			offered = append(append([]byte{}, z...), good...)
+		case 2:
+			offered = append(append([]byte{}, good...), z...)
+		default:
+			offered = append(append(append(append([]byte{}, z[:pad/2]...), good[:size]...), z[:pad/2]...), good[size:]...)
+		}
+		variant = "far-padding"
 	case 14:
 		// r, then one to three zero octets, then s: an odd or even total that
 		// halves "almost" right (a peer that pads s one octet too far, or a
